@@ -27,6 +27,15 @@ ISA_MODULES = [
 MIN_SPECS = 5000  # sanity: the pinned tree ships 5137 specs in these modules
 
 
+def jvm_env(gcthreads, extra=None):
+    """environment for tlc.run: many small JVMs run side by side (trace shards, parallel model runs); the
+    JVM's default of one GC / JIT thread per core per JVM only makes them fight for the cores"""
+    e = {"JAVA_TOOL_OPTIONS": "-XX:ParallelGCThreads=%d -XX:CICompilerCount=2" % max(1, gcthreads)}
+    if extra:
+        e.update(extra)
+    return e
+
+
 class _Collect(logging.Handler):
     def __init__(self):
         logging.Handler.__init__(self, logging.ERROR)
